@@ -506,3 +506,13 @@ func CheckTable(s RawReader, sum []byte) (class, detail string) {
 }
 
 func newMeow() *meow.Digest { return meow.New(0) }
+
+// NormaliseCSV returns the rows an independent encoding/csv parse of the
+// rendered text yields.
+func NormaliseCSV(cols []string, rows [][]string) [][]string {
+	_, r, err := ParseCSV(CSVText(cols, rows, ','), ',')
+	if err != nil {
+		return rows
+	}
+	return r
+}
